@@ -121,7 +121,9 @@ func coreC07() []progCase {
 }
 
 func genC07(t *rapid.T) progCase {
-	switch gen.Pick(t, "src", 6, 2, 1) {
+	switch gen.Pick(t, "src", 6, 2, 1, 4) {
+	case 3:
+		return genSoup(t)
 	case 0:
 		return genFileSet(t, true)
 	case 1:
